@@ -163,18 +163,33 @@ func vlGetFile(c *DiskCache, d Digest) string {
 
 const vlManifest = "/cache/manifests/h/n/m/t"
 
-// the manifests directory holds the link of the scenario iff it exists
+// the spellings of the scenario's name (the second one only in the case-variant history)
+var vlSpellings = []string{"h/n/m:t", "H/n/M:t"}
+var vlSpellingPaths = []string{"manifests/h/n/m/t", "manifests/H/n/M/t"}
+
+// the manifests directory holds the links of the scenario that exist, in lexical order
 func vlLinks(c *DiskCache) func(yield func(string, error) bool) {
 	return func(yield func(string, error) bool) {
-		if vlGet(vlManifest).exists {
-			yield("manifests/h/n/m/t", nil)
+		for _, i := range []int{1, 0} { // "manifests/H..." sorts before "manifests/h..."
+			if vlGet("/cache/" + vlSpellingPaths[i]).exists {
+				if !yield(vlSpellingPaths[i], nil) {
+					return
+				}
+			}
 		}
 	}
 }
 
 // VerifC08Link: nBlobs manifest blobs of the given size with arbitrary, pairwise different contents; a
 // history of nOps operations (Put blob k, Link name->k, Unlink, Resolve) chosen by the solver.
-func VerifC08Link(nBlobs int, size int, nOps int) {
+func VerifC08Link(nBlobs int, size int, nOps int) { vlLinkHistory(nBlobs, size, nOps, false) }
+
+// VerifC08LinkCase: the same history, every operation spelling the name in either of two letter cases;
+// the ghost state knows one model (names differing only in letter case address the same model), and at
+// most one link file may exist for it.
+func VerifC08LinkCase(nBlobs int, size int, nOps int) { vlLinkHistory(nBlobs, size, nOps, true) }
+
+func vlLinkHistory(nBlobs int, size int, nOps int, caseVariants bool) {
 	vlFS, vlHandles = map[string]*vlFile{}, map[*os.File]*vlHandle{}
 	vlDigests, vlBlobs = nil, nil
 	for k := 0; k < nBlobs; k++ {
@@ -195,10 +210,20 @@ func VerifC08Link(nBlobs int, size int, nOps int) {
 		vlDigests = append(vlDigests, Digest{sum: vfSum(b)})
 	}
 	c := &DiskCache{dir: "/cache", now: time.Now}
-	const name = "h/n/m:t"
+	name := vlSpellings[0]
 	linked := -1 // ghost: index of the blob the name was last linked to
 	stored := make([]bool, nBlobs)
 	for op := 0; op < nOps; op++ {
+		if caseVariants {
+			name = vlSpellings[verifChoice(2)]
+			n := 0
+			for _, p := range vlSpellingPaths {
+				if vlGet("/cache/" + p).exists {
+					n++
+				}
+			}
+			verifAssert(n <= 1, "one-link-file-per-model-whatever-the-spelling")
+		}
 		switch verifChoice(5) {
 		case 4: // a Put of blob k whose source delivers other bytes of the same length
 			k := verifChoice(nBlobs)
